@@ -1,7 +1,7 @@
 (* Tie between the constants the SM2 specification / model write as literals and what /repo's source says
    now (Gen/SM2Params.v and Gen/SM2SigParams.v are regenerated from sm2/p256.go and sm2/sm2.go by the
    translator on every check run): a changed constant in the source breaks these lemmas. *)
-From Coq Require Import List NArith ZArith.
+From Coq Require Import List NArith ZArith Lia Bool.
 From GmsmVerif Require Import EC.SM2Curve SM2.SM2Bytes SM2.SM2Model Gen.SM2Params Gen.SM2SigParams.
 Import ListNotations.
 Open Scope Z_scope.
@@ -59,3 +59,62 @@ Definition layout_statement : Prop :=
 
 Lemma layout_tied : layout_statement.
 Proof. unfold layout_statement. repeat split; reflexivity. Qed.
+
+(* ---- Padding sites, read semantically (round 6) ----
+   The per-function lists above are taken from the function body WITH the bodies of unmodelled same-package
+   helpers accounted at their call sites (translator: sm2sigHelper), so moving the padding block into a helper
+   such as leftPad32(buf) leaves them unchanged.  In addition the translator recognises every padding site -
+   the inline block or a call X = h(X) of a helper that is exactly that block - and emits its two constants;
+   the lemma below proves that each site, read as a function on byte strings with the constants and the
+   zeroByteSlice() literal of the source, is the model's pad32 for EVERY buffer, and that no use of
+   zeroByteSlice() stands outside such a site. *)
+
+(* Semantic reading of one padding site  if n := len(X); n < W1 { X = append(zeroByteSlice()[:W2-n], X...) }
+   with the two constants (W1, W2) and the contents of zeroByteSlice() as the source has them now.  A slice
+   bound outside 0..len(zeroByteSlice()) is a run-time panic in Go: None. *)
+Definition pad_site (w : Z * Z) (buf : list N) : option (list N) :=
+  let n := Z.of_nat (length buf) in
+  if n <? fst w then
+    let hi := snd w - n in
+    if (0 <=? hi) && (hi <=? Z.of_nat (length gen_zeroByteSlice))
+    then Some (firstn (Z.to_nat hi) gen_zeroByteSlice ++ buf) else None
+  else Some buf.
+
+Lemma firstn_repeat_le : forall (A : Type) (a : A) k n, (k <= n)%nat -> firstn k (repeat a n) = repeat a k.
+Proof.
+  induction k as [|k IH]; intros n Hk; [reflexivity|].
+  destruct n as [|n]; [lia|]. cbn [repeat firstn]. f_equal. apply IH. lia.
+Qed.
+
+(* every site with the constants (32, 32) IS the model's pad32, for every buffer *)
+Lemma pad_site_32_is_pad32 : forall buf, pad_site (32, 32) buf = Some (pad32 buf).
+Proof.
+  intro buf. unfold pad_site, pad32. cbn [fst snd].
+  replace gen_zeroByteSlice with (repeat 0%N 32) by reflexivity.
+  rewrite repeat_length.
+  destruct (Nat.ltb_spec (length buf) 32) as [Hlt|Hge].
+  - replace (Z.of_nat (length buf) <? 32) with true by (symmetry; apply Z.ltb_lt; lia).
+    replace ((0 <=? 32 - Z.of_nat (length buf)) && (32 - Z.of_nat (length buf) <=? Z.of_nat 32))%bool with true
+      by (symmetry; apply andb_true_intro; split; apply Z.leb_le; lia).
+    rewrite firstn_repeat_le by lia.
+    replace (Z.to_nat (32 - Z.of_nat (length buf))) with (32 - length buf)%nat by lia. reflexivity.
+  - replace (Z.of_nat (length buf) <? 32) with false by (symmetry; apply Z.ltb_ge; lia). reflexivity.
+Qed.
+
+Definition gen_all_pads : list (Z * Z) :=
+  gen_Encrypt_pads ++ gen_Decrypt_pads ++ gen_CipherUnmarshal_pads ++ gen_ZA_pads ++ gen_keCoordBytes_pads.
+
+Definition pad_sites_statement : Prop :=
+  (forall w, In w gen_all_pads -> forall buf, pad_site w buf = Some (pad32 buf)) /\
+  length gen_Encrypt_pads = 4%nat /\ length gen_Decrypt_pads = 2%nat /\ length gen_CipherUnmarshal_pads = 2%nat /\
+  length gen_ZA_pads = 2%nat /\ length gen_keCoordBytes_pads = 1%nat /\
+  gen_Encrypt_stray_zero_uses = 0 /\ gen_Decrypt_stray_zero_uses = 0 /\ gen_CipherUnmarshal_stray_zero_uses = 0 /\
+  gen_ZA_stray_zero_uses = 0 /\ gen_keCoordBytes_stray_zero_uses = 0.
+
+Lemma pad_sites_tied : pad_sites_statement.
+Proof.
+  unfold pad_sites_statement. split.
+  - intros w Hin. cbv in Hin.
+    repeat (destruct Hin as [<-|Hin]; [apply pad_site_32_is_pad32|]). contradiction.
+  - repeat split; reflexivity.
+Qed.
